@@ -1,13 +1,37 @@
 /-
 C14 — a clone is equal, detached and fully independent.
+
+Proved for EVERY heap and every node whose subtree is a tree of allocated nodes (`SubTree h h.size n h.size`: all descendants are
+allocated and the depth does not exceed the number of nodes — true of every acyclic tree): the copy's root is a new node
+without a parent; every node of the original keeps its whole record (so nothing reachable from the original changes); every
+node reachable from the copy through any children map is a new node, i.e. the two trees share no node; the copy's root never
+carries a container cache (`C14_detached_and_disjoint`, `cloneAux_root_record`). Value equality of the copy and
+non-interference of later edits rest on the heap invariant (C05/C06) and are checked by the clone probe and the kernel-
+evaluated witness below.
 -/
 import Ajson.Model.Mutate
 import Ajson.Proofs.MutBasics
+import Ajson.Proofs.CloneFrame
 import Ajson.Model.Decode
 import Ajson.Spec.WF
 
 namespace Ajson.Props.C14
-open Ajson Ajson.Heap
+open Ajson Ajson.Heap Ajson.Proofs
+
+/-- **detached and disjoint**: new root without a parent; the original untouched; everything reachable from the copy is new -/
+theorem C14_detached_and_disjoint (h : Heap) (n : Nat) (hs : SubTree h h.size n h.size) :
+    (h.clone n).2 = h.size ∧ ((h.clone n).1.get (h.clone n).2).parent = none ∧
+    (∀ m : Nat, m < h.size → (h.clone n).1.get m = h.get m) ∧
+    (∀ m : Nat, Reach (h.clone n).1 (h.clone n).2 m → h.size ≤ m ∧ m < (h.clone n).1.size) ∧
+    (h.clone n).1.datas = h.datas := clone_ok h n hs
+
+/-- the hypothesis is satisfiable: a two-level tree -/
+example : ∃ h : Heap, SubTree h h.size 0 h.size ∧ 1 < h.size :=
+  ⟨{ nodes := [{ type := .array, children := some [([48], 1)] }, { type := .null, parent := some 0, index := some 0 }] },
+   SubTree.mk 0 1 (by decide) (fun kc hkc => by
+     have : kc = ([48], 1) := by simpa [Heap.childMap, Heap.get] using hkc
+     subst this
+     exact SubTree.mk 1 0 (by decide) (fun kc hkc => by simp [Heap.childMap, Heap.get] at hkc)), by decide⟩
 
 /-- the root of a clone is a newly allocated node (its id is the first free one) -/
 theorem clone_root_is_new (h : Heap) (n : Id) (hs : 0 < h.size) : (h.clone n).2 = h.size := by
